@@ -493,11 +493,16 @@ func runC02(r *core.Run) {
 			r.Capped.Store(true)
 		}
 	}
+	independencePass(r, "C02")
 	r.Sample(map[string]any{"family": "LeaseSet2", "variation": "options=a='' + offline transient P-256", "directions": "decode+encode"})
 	r.Sample(map[string]any{"family": "KeysAndCert", "variation": "sig P-384 / crypto ElGamal, KEY certificate with 5 extra payload bytes"})
 }
 
 func replayC02(r *core.Run, c core.Case) {
+	if c.Kind == "independence" {
+		replayIndependence(r, "C02", c)
+		return
+	}
 	fam := c.Args["family"]
 	var vec []int
 	for _, f := range strings.Fields(strings.Trim(c.Args["vector"], "[]")) {
